@@ -858,6 +858,17 @@ fn run<C: Cv>(
             let lsb = if s.be { s.off + s.len - 1 } else { s.off };
             b[lsb] |= 1;
             strs.push(b);
+            // identity encoding with ONE stray bit: every bit of the most and least significant byte of every
+            // slot (this includes the bits that share a byte with the flags); thorough: every bit of the string
+            let msb = if s.be { s.off } else { s.off + s.len - 1 };
+            let bytes: Vec<usize> = if ctx.thorough { (s.off..s.off + s.len).collect() } else { vec![msb, lsb] };
+            for byte in bytes {
+                for bit in 0..8u8 {
+                    let mut b = e_o.clone();
+                    b[byte] ^= 1 << bit;
+                    strs.push(b);
+                }
+            }
         }
         // 4. a coordinate from which no point can be recovered
         for _ in 0..(if ctx.thorough { 6 } else { 2 }) {
